@@ -10,7 +10,7 @@
 //!         parameters; results recorded for spec/trace/MemAccessTrace.tla.
 //! Shared code (abstraction function) lives in c22.rs.
 
-use super::c22::{abs_instr, real_instr};
+use super::c22::{abs_instr, not_reproduced, try_real_instr};
 use crate::runner::{Outcome, Summary, Violation};
 use crate::util::{self, s};
 use crate::Ctx;
@@ -22,7 +22,7 @@ use serde_json::{json, Value};
 
 /// {"f": {"ret": bool, "params": [{"mut": bool, "ty": "scalar"|"fixed"|"var"}]}} -> signature map, through the
 /// program's PRAGMA EXTERN table (the route ScheduledBasicBlock::build takes)
-fn signature_map(sigs: &Value) -> ExternSignatureMap {
+fn signature_map(sigs: &Value) -> Result<ExternSignatureMap, String> {
     let mut t = String::new();
     if let Some(m) = sigs.as_object() {
         for (name, sg) in m {
@@ -36,12 +36,15 @@ fn signature_map(sigs: &Value) -> ExternSignatureMap {
             t.push_str(&format!("PRAGMA EXTERN {name} \"{ret}{sep}{params}\"\n"));
         }
     }
-    let program = util::program(&t);
+    use std::str::FromStr;
+    let program = quil_rs::Program::from_str(&t).map_err(|e| format!("extern declarations do not parse: {e}"))?;
     let n = sigs.as_object().map(|m| m.len()).unwrap_or(0);
     let map = ExternSignatureMap::try_from(program.extern_pragma_map.clone())
-        .unwrap_or_else(|(p, e)| panic!("extern signature not accepted: {} ({e:?})", p.to_quil_or_debug()));
-    assert_eq!(program.extern_pragma_map.to_instructions().len(), n, "extern table of the case not reproduced");
-    map
+        .map_err(|(p, e)| format!("extern signature not accepted: {} ({e:?})", p.to_quil_or_debug()))?;
+    if program.extern_pragma_map.to_instructions().len() != n {
+        return Err("extern table of the case not reproduced".into());
+    }
+    Ok(map)
 }
 
 fn set_json<'a>(it: impl Iterator<Item = &'a String>) -> Value {
@@ -147,8 +150,14 @@ pub fn replay(_ctx: &Ctx, case: &Value) -> Outcome {
         }
         None => case.clone(),
     };
-    let i = real_instr(&case["instr"]);
-    let map = signature_map(&case["sigs"]);
+    let i = match try_real_instr(&case["instr"]) {
+        Ok(i) => i,
+        Err(e) => return not_reproduced(e),
+    };
+    let map = match signature_map(&case["sigs"]) {
+        Ok(m) => m,
+        Err(e) => return not_reproduced(e),
+    };
     let got = real_accesses(&map, &i);
     let mut o = Outcome::ok(nontrivial(&case["instr"]));
     if let Some(w) = case.get("want") {
@@ -247,7 +256,7 @@ pub fn drive(ctx: &Ctx) -> Summary {
             continue;
         }
         done += 1;
-        let map = signature_map(&sigs);
+        let map = signature_map(&sigs).expect("driver signature");
         let got = real_accesses(&map, &i);
         util::emit(&mut out, &json!({"ev": "reset"}));
         util::emit(&mut out, &json!({"ev": "acc", "instr": abs, "sigs": sigs, "res": got}));
